@@ -42,6 +42,10 @@ func (msg MsgChangeParam) GetSigner() sdk.Address {
 
 // GetSignBytes returns the message bytes to sign over.
 func (msg MsgChangeParam) GetSignBytes() []byte {
+	// an empty value decodes as an absent one: both must sign identically
+	if len(msg.ParamVal) == 0 {
+		msg.ParamVal = nil
+	}
 	bz := ModuleCdc.MustMarshalJSON(msg)
 	return sdk.MustSortJSON(bz)
 }
